@@ -356,4 +356,86 @@ theorem rdp_alloc_bound (h : Bytes) (n : Nat) (hh : Rdp.header h = .ok (some n))
   have := Rdp.header_payload_le h n hh
   simp only [allocBound, layer4_MaxMatchingBytes, l4rdp_RDPConnReqBytesMin]; omega
 
+/-! ## openvpn and dns -/
+
+theorem ovpnV3_safe (cfg : OvpnCfg) (isTcp : Bool) (l opcode : Nat) : Safe (ovpnV3 cfg isTcp l opcode) := by
+  unfold ovpnV3
+  repeat' first
+    | exact Safe.ret _ (ite_ne_panic _)
+    | exact Safe.ret _ (by decide)
+    | refine Safe.readAtLeast _ _ _ fun b _ _ => ?_
+    | split
+
+theorem ovpnBody_safe (cfg : OvpnCfg) (isTcp : Bool) (l : Nat) (op : UInt8) : Safe (ovpnBody cfg isTcp l op) := by
+  unfold ovpnBody
+  simp only []
+  repeat' first
+    | exact Safe.ret _ (by decide)
+    | exact ovpnV3_safe _ _ _ _
+    | refine Safe.readAtLeast _ _ _ fun b _ _ => ?_
+    | split
+
+theorem ovpnV3_alloc (cfg : OvpnCfg) (isTcp : Bool) (l opcode : Nat) (B : Nat)
+    (hl : l ≤ l4openvpn_MessageCrypt2BytesMax) (hB : l4openvpn_MessageCrypt2BytesMax + 1 ≤ B) :
+    AllocLe (ovpnV3 cfg isTcp l opcode) B := by
+  unfold ovpnV3
+  simp only [l4openvpn_MessageCrypt2BytesMax] at hl hB
+  repeat' first
+    | exact AllocLe.ret _ _
+    | refine AllocLe.readAtLeast _ _ _ _ (by first | omega | (simp only [l4openvpn_MessageCrypt2BytesMaxHL]; omega)) fun b _ _ => ?_
+    | split
+
+theorem ovpnBody_alloc (cfg : OvpnCfg) (isTcp : Bool) (l : Nat) (op : UInt8) (B : Nat)
+    (hl : l ≤ l4openvpn_MessageCrypt2BytesMax) (hB : 2 * (l4openvpn_MessageCrypt2BytesMax + 1) ≤ B) :
+    AllocLe (ovpnBody cfg isTcp l op) B := by
+  unfold ovpnBody
+  simp only []
+  have hl' := hl
+  have hB' := hB
+  simp only [l4openvpn_MessageCrypt2BytesMax] at hl' hB'
+  repeat' first
+    | exact AllocLe.ret _ _
+    | exact ovpnV3_alloc _ _ _ _ _ hl (by first | (simp only [l4openvpn_MessageCrypt2BytesMax]; omega) | (simp only [l4openvpn_MessageCrypt2BytesMax, l4openvpn_MessageAuthBytesMaxHL]; omega))
+    | refine AllocLe.readAtLeast _ _ _ _ (by first | omega | (simp only [l4openvpn_MessageAuthBytesMaxHL]; omega)) fun b _ _ => ?_
+    | split
+
+/-- **OpenVPN** (TCP and UDP framing, every combination of enabled modes, any keyed-mode verifier): no panic and at
+most two message buffers -/
+theorem openvpn_total (cfg : OvpnCfg) (isTcp : Bool) : Total (openvpn cfg isTcp) := by
+  refine total_of ?_ ?_
+  · unfold openvpn
+    split
+    · refine .readFull _ _ fun lb _ => ?_
+      simp only []
+      split
+      · exact .ret _ (by simp)
+      · exact .readFull _ _ fun o _ => ovpnBody_safe _ _ _ _
+    · exact .readFull _ _ fun o _ => ovpnBody_safe _ _ _ _
+  · unfold openvpn
+    split
+    · refine .readFull _ _ _ (by decide) fun lb _ => ?_
+      simp only []
+      split
+      · exact .ret _ _
+      · rename_i h
+        refine .readFull _ _ _ (by decide) fun o _ => ovpnBody_alloc _ _ _ _ _ (by omega) (by decide)
+    · exact .readFull _ _ _ (by decide) fun o _ => ovpnBody_alloc _ _ _ _ _ (by decide) (by decide)
+
+/-- **DNS** (TCP and UDP framing; `dns.Msg.Unpack` is a parameter): the matcher's own code has no failing expression -/
+theorem dns_total (cfg : DnsCfg) (unpack : Bytes → Option DnsMsg) (bs : Bytes) :
+    dnsTcp cfg unpack bs ≠ .panic ∧ dnsUdp cfg unpack bs ≠ .panic := by
+  have hd : ∀ n m, dnsDecide cfg n m ≠ .panic := by
+    intro n m
+    unfold dnsDecide
+    repeat' split
+    all_goals decide
+  constructor
+  · unfold dnsTcp
+    simp only []
+    repeat' split
+    all_goals first | exact hd _ _ | decide
+  · unfold dnsUdp
+    repeat' split
+    all_goals first | exact hd _ _ | decide
+
 end L4.C04
